@@ -1453,6 +1453,8 @@ class Compiler:
                         self._emit(OpCode.STORE_CELL, cell_slot)
                         self._emit(OpCode.POP)
                     else:
+                        # The result of x++ is the old value as a number
+                        self._emit(OpCode.POS)
                         self._emit(OpCode.DUP)
                         self._emit(inc_op)
                         self._emit(OpCode.STORE_CELL, cell_slot)
@@ -1467,6 +1469,8 @@ class Compiler:
                             self._emit(OpCode.STORE_LOCAL, slot)
                             self._emit(OpCode.POP)
                         else:
+                            # The result of x++ is the old value as a number
+                            self._emit(OpCode.POS)
                             self._emit(OpCode.DUP)
                             self._emit(inc_op)
                             self._emit(OpCode.STORE_LOCAL, slot)
@@ -1482,6 +1486,8 @@ class Compiler:
                                 self._emit(OpCode.STORE_CLOSURE, closure_slot)
                                 self._emit(OpCode.POP)
                             else:
+                                # The result of x++ is the old value as a number
+                                self._emit(OpCode.POS)
                                 self._emit(OpCode.DUP)
                                 self._emit(inc_op)
                                 self._emit(OpCode.STORE_CLOSURE, closure_slot)
@@ -1495,6 +1501,8 @@ class Compiler:
                                 self._emit(OpCode.STORE_NAME, idx)
                                 self._emit(OpCode.POP)
                             else:
+                                # The result of x++ is the old value as a number
+                                self._emit(OpCode.POS)
                                 self._emit(OpCode.DUP)
                                 self._emit(inc_op)
                                 self._emit(OpCode.STORE_NAME, idx)
@@ -1528,6 +1536,8 @@ class Compiler:
                     self._emit(OpCode.POP)  # [nv]
                 else:
                     # a.x++: return old value
+                    # The result of x++ is the old value as a number
+                    self._emit(OpCode.POS)
                     self._emit(OpCode.DUP)  # [obj, prop, old_value, old_value]
                     self._emit(inc_op)  # [obj, prop, old_value, new_value]
                     # Rearrange: [obj, prop, old_value, new_value] -> [old_value, obj, prop, new_value]
